@@ -17,9 +17,9 @@
   stored, belonging document with identity `id` (⊆, even with syntactic equality of the tuple);
   every tuple of every stored belonging document has an entry with its identity (⊇, up to
   `tupleEq`);  no two entries with the same identity and `tupleEq` keys.
-  NOT covered here: the btree's key ORDER (the model keeps entries in insertion order and
-  `Index.list` sorts them; `index_list_sorted_partial` proves "each once", not the order),
-  reload from a file (C06), failed calls/aborts beyond "the state is unchanged"
+  Key order: the model keeps entries in insertion order and `Index.list` (model of `Index.List()`)
+  sorts them; `index_list_exact` / `index_list_sorted` prove "each once and in key order".
+  NOT covered here: reload from a file (C06), failed calls/aborts beyond "the state is unchanged"
   (the model's `Sys.step` returns the old state on error by construction; the clone discipline
   that makes this true in Go is C02's).
   No C12 law is needed for C15: coherence never uses transitivity of `Compare`.
@@ -68,17 +68,30 @@ theorem coherent_rebuild {c : Coll} {n : String} {i j : Index} (hc : Coherent sc
     sameEntries i j ∧ IndexCoherent sch (· ∈ c.docs) j ∧ j.config = i.config ∧ j.columns = i.columns :=
   Lungo.coherent_rebuild hc hm h
 
-/-- "each once and in key order" — PARTIAL. Full statement:
-      `i.list` (model of `Index.List()`: entries stably sorted by `keyLe i.columns`, identities
-      deduplicated keeping the first) enumerates exactly the belonging documents, each once, AND
-      `i.list` is ascending w.r.t. each document's smallest key tuple.
-    Proved: exactly the belonging documents, each once. Missing: the ordering clause (needs
-    `List.sorted_mergeSort` for `keyLe`, i.e. totality/transitivity of `keyLe`, which hold only on
-    `TupOk` tuples (C12) — a sorted-ness lemma relative to a carrier predicate is not in core). -/
-theorem index_list_sorted_partial {c : Coll} {n : String} {i : Index} (hc : Coherent sch c)
+/-- "each once": `i.list` (model of `Index.List()`: entries stably sorted by `keyLe i.columns`,
+    identities deduplicated keeping the first) lists exactly the belonging documents, each once.
+    Needs no well-formedness. -/
+theorem index_list_exact {c : Coll} {n : String} {i : Index} (hc : Coherent sch c)
     (hm : (n, i) ∈ c.indexes) :
     i.list.Nodup ∧ ∀ id, id ∈ i.list ↔ ∃ sd ∈ c.docs, sd.id = id ∧ belongs sch i sd.doc :=
-  index_list_exact hc hm
+  Lungo.index_list_exact hc hm
+
+/-- "… and in key order": `i.list` is the identity projection of a list `ks` of index entries that
+    is ascending by key (`keyLe`, column-wise `Compare` with the columns' directions) and holds
+    each listed document under its SMALLEST key. Uses the C12 order laws (sorting needs a total
+    preorder), hence `DocsOk`. Among documents with equal smallest keys the order is the
+    model's insertion order (Go: pointer order — not observable). -/
+theorem index_list_sorted {c : Coll} {n : String} {i : Index} (hc : Coherent sch c)
+    (hm : (n, i) ∈ c.indexes) (hok : DocsOk c.docs) :
+    ∃ ks : List (List V × Nat), ks.map (·.2) = i.list ∧ (∀ e ∈ ks, e ∈ i.entries) ∧
+      ks.Pairwise (fun a b => keyLe i.columns a.1 b.1 = true) ∧
+      ∀ k id, (k, id) ∈ ks → ∀ k', (k', id) ∈ i.entries → keyLe i.columns k k' = true :=
+  Lungo.index_list_sorted hc hm hok
+
+/-- the btree scan order (all entries) is ascending by key -/
+theorem index_scan_sorted {c : Coll} {n : String} {i : Index} (hc : Coherent sch c)
+    (hm : (n, i) ∈ c.indexes) (hok : DocsOk c.docs) :
+    i.scan.Pairwise (fun a b => keyLe i.columns a.1 b.1 = true) := scan_sorted hc hm hok
 
 /-! ### Every collection method preserves coherence (and freshness of the identity counter) -/
 
@@ -184,6 +197,25 @@ theorem inv_step {s s' : Sys} {c : Call} {oids : List V} {r : Reply} (hi : SysIn
     (e : Sys.step sch s c oids = .ok (s', r)) : SysInv sch s' :=
   (SysGood.step (uq := false) (good_false_iff.mpr hi) e).1
 
+/-- one driver call executed on ANY transaction (a fresh one over the committed catalog, or a
+    session's open transaction) preserves the invariant of the transaction's catalog -/
+theorem inv_runCall {t t' : Txn} {nu nu' : Nu} {c : Call} {r : Reply}
+    (hi : Inv sch t.catalog nu.nextId) (e : runCall sch t nu c = .ok (t', nu', r)) :
+    Inv sch t'.catalog nu'.nextId ∧ nu.nextId ≤ nu'.nextId :=
+  let g := Good.runCall (uq := false) (good_false_iff.mpr hi) e; ⟨g.1.1, g.2⟩
+
+theorem sgood_false_iff {s : SSys} : SGood sch false s ↔ SSysInv sch s :=
+  ⟨fun g => ⟨g.1.1, fun k st t hm ht => (g.2 k st t hm ht).1⟩,
+   fun i => ⟨good_false_iff.mpr i.1, fun k st t hm ht => good_false_iff.mpr (i.2 k st t hm ht)⟩⟩
+
+theorem inv_sinit : SSysInv sch SSys.init := sgood_false_iff.mp SGood.init
+
+/-- sessions and multi-call transactions (start / commit / abort / endSession / calls inside and
+    outside a transaction, blocked and failed calls included): the committed catalog and every open
+    session transaction stay coherent -/
+theorem inv_sstep {s : SSys} (hi : SSysInv sch s) (c : SCall) : SSysInv sch (s.step sch c).1 :=
+  sgood_false_iff.mp ((sgood_false_iff.mpr hi).step c)
+
 /-- induction over call lists: after ANY history of calls (failed ones included) from the empty
     database, every index of every collection holds exactly the collection's documents. -/
 theorem inv_run (calls : List (Call × List V)) : SysInv sch (Sys.run sch Sys.init calls) :=
@@ -197,6 +229,16 @@ theorem inv_run_from {s : Sys} (hi : SysInv sch s) (calls : List (Call × List V
 theorem coherent_reachable (calls : List (Call × List V)) {h : Handle} {c : Coll}
     (hm : (h, c) ∈ (Sys.run sch Sys.init calls).catalog.namespaces) : Coherent sch c :=
   (inv_run calls).coherent h c hm
+
+/-- index names are pairwise distinct in every reachable state (the association list is a map) … -/
+theorem names_distinct (calls : List (Call × List V)) {h : Handle} {c : Coll}
+    (hm : (h, c) ∈ (Sys.run sch Sys.init calls).catalog.namespaces) : NamesDistinct c :=
+  (inv_run calls).names h c hm
+
+/-- … so `lookup` by name is membership, and a drop by name removes exactly one index -/
+theorem lookup_iff_mem {c : Coll} (hn : NamesDistinct c) {n : String} {i : Index} :
+    c.indexes.lookup n = some i ↔ (n, i) ∈ c.indexes :=
+  ⟨lookup_mem, lookup_of_mem hn⟩
 
 /-- `_id_` is present in every namespace but the oplog, in every reachable state -/
 theorem id_index_present (calls : List (Call × List V)) {h : Handle} {c : Coll}
